@@ -717,6 +717,9 @@ type gChooser func(w *gWorld, step int) string // next op ("" ends the schedule)
 
 func runGossip(t *testing.T, e *Env, begin string, next gChooser) (ops []string, viol []map[string]any) {
 	synctest.Test(t, func(t *testing.T) {
+		if os.Getenv("VERIF_C09_MODEL") == "asis" && !strings.Contains(begin, " asis") {
+			begin += " asis" // compare with the model of the tree before the C09 repair (used to re-confirm the old finding)
+		}
 		f := strings.Fields(begin)
 		n, _ := strconv.Atoi(f[1])
 		w := newGWorld(t, n, len(f) > 2 && f[2] == "streams")
